@@ -4,9 +4,11 @@
 (* references (experimental/gittuf/rsl.go: ReconcileLocalRSLWithRemote,    *)
 (* sync) -- C15.                                                           *)
 (*                                                                         *)
-(* An entry is [u, k, ref, t, tg]: a unique identity u (the entry id),     *)
-(* kind "ref" | "prop" | "ann", the reference and target commit it records *)
-(* (ref / prop), and for a skip annotation the identities it revokes.      *)
+(* An entry is [u, k, ref, t, tg, skip]: a unique identity u (the entry    *)
+(* id), kind "ref" | "prop" | "ann", the reference and target commit it    *)
+(* records (ref / prop; a target may be a commit recorded earlier: the     *)
+(* reference is reset), and for an annotation the identities it names and  *)
+(* whether it revokes them (skip) or is a plain note.                      *)
 (* A log is a sequence of entries.  Identities matter: re-recording an     *)
 (* entry gives it a NEW identity, so what a log MEANS is read through      *)
 (* positions: Meaning(log)[i] = [k, ref, t, tg = positions referred to     *)
@@ -30,8 +32,8 @@
 EXTENDS Integers, Sequences, FiniteSets, SequencesExt, FiniteSetsExt, TLC
 
 PosOf(log, u) == LET S == {i \in DOMAIN log : log[i].u = u} IN IF S = {} THEN 0 ELSE CHOOSE i \in S : TRUE
-Meaning(log) == [i \in DOMAIN log |-> [k |-> log[i].k, ref |-> log[i].ref, t |-> log[i].t, tg |-> {PosOf(log, u) : u \in log[i].tg}]]
-SkippedAt(log, i) == \E j \in DOMAIN log : j > i /\ log[j].k = "ann" /\ log[i].u \in log[j].tg
+Meaning(log) == [i \in DOMAIN log |-> [k |-> log[i].k, ref |-> log[i].ref, t |-> log[i].t, tg |-> {PosOf(log, u) : u \in log[i].tg}, skip |-> log[i].skip]]
+SkippedAt(log, i) == \E j \in DOMAIN log : j > i /\ log[j].k = "ann" /\ log[j].skip /\ log[i].u \in log[j].tg
 Updates(S, kinds) == {S[i].ref : i \in {j \in DOMAIN S : S[j].k \in kinds}}
 MaxU(log) == IF log = <<>> THEN 0 ELSE Max({log[i].u : i \in DOMAIN log})
 
@@ -112,7 +114,7 @@ ParentOf(C, L, R, c) ==
     IF c > 200 THEN TipIn(C, SRefs[c - 200]) ELSE IF c > 100 THEN TipIn(C \o R, SRefs[c - 100])
     ELSE LET inC == \E i \in DOMAIN C : C[i].t = c
              side == IF inC THEN C ELSE IF \E i \in DOMAIN L : L[i].t = c THEN C \o L ELSE C \o R
-             i == CHOOSE j \in DOMAIN side : side[j].t = c /\ side[j].k \in {"ref", "prop"}
+             i == Min({j \in DOMAIN side : side[j].t = c /\ side[j].k \in {"ref", "prop"}})     \* where the commit was first recorded
              P == {j \in 1..(i - 1) : side[j].k \in {"ref", "prop"} /\ side[j].ref = side[i].ref}
          IN IF P = {} THEN 0 ELSE side[Max(P)].t
 RECURSIVE ChainOf(_, _, _, _)
